@@ -48,6 +48,8 @@ def run(prog, chk):
     from props import geomalg
     geomalg.check_sites(prog, chk, "C19")
     geomalg.check(prog, chk, "C19", floor=28)
+    from props import strops
+    strops.check_for(prog, chk, "C19")  # A14.str-ops: how this property's strings are cut up is a reviewed, frozen inventory
 
 
 def carriers(prog, chk):
